@@ -152,14 +152,20 @@ func (cl *Loader) load(file string) (config map[string]interface{}, err error) {
 	var raw map[string]interface{}
 	importDir := path.Dir(file)
 	if imports, ok := config["import"]; ok {
-		for _, v := range imports.([]interface{}) {
-			if utils.IsURL(v.(string)) {
-				if cl.imports[v.(string)] {
+		var importList []string
+		importList, err = importsList(imports)
+		if err != nil {
+			return nil, fmt.Errorf("%s: %v", file, err)
+		}
+
+		for _, v := range importList {
+			if utils.IsURL(v) {
+				if cl.imports[v] {
 					continue
 				}
-				raw, err = cl.load(v.(string))
+				raw, err = cl.load(v)
 			} else {
-				importFile := path.Join(importDir, v.(string))
+				importFile := path.Join(importDir, v)
 				if cl.imports[importFile] {
 					continue
 				}
@@ -188,6 +194,29 @@ func (cl *Loader) load(file string) (config map[string]interface{}, err error) {
 	}
 
 	return config, nil
+}
+
+// importsList converts raw "import" section into list of strings.
+// Single string is treated as a list of one element
+func importsList(raw interface{}) ([]string, error) {
+	switch imports := raw.(type) {
+	case nil:
+		return nil, nil
+	case string:
+		return []string{imports}, nil
+	case []interface{}:
+		list := make([]string, 0, len(imports))
+		for _, v := range imports {
+			s, ok := v.(string)
+			if !ok {
+				return nil, fmt.Errorf("import must be a string, got %T", v)
+			}
+			list = append(list, s)
+		}
+		return list, nil
+	}
+
+	return nil, fmt.Errorf("import must be a string or a list of strings, got %T", raw)
 }
 
 func (cl *Loader) loadDir(dir string) (map[string]interface{}, error) {
